@@ -19,6 +19,12 @@ ERRORS = {
     # kind: (statement text, expected column or None, 'scan' | 'node')
     "undefined-operand": ("  lda.w verif_no_such_symbol", None, "node"),
     "undefined-data": (".dw 1, verif_no_such_symbol", None, "node"),
+    # without a size suffix the operand is evaluated already while labels are resolved (width guess): the same located error
+    "undefined-operand-unsized": ("lda verif_no_such_symbol", None, "node"),
+    "undefined-operand-unsized-indexed": ("  sta verif_no_such_symbol, x", None, "node"),
+    "undefined-operand-unsized-indirect": ("lda (verif_no_such_symbol),y", None, "node"),
+    "undefined-immediate-unsized": ("lda #verif_no_such_symbol + 1", None, "node"),
+    "undefined-jump-target": ("jmp verif_no_such_symbol", None, "node"),
     "bad-size": ("lda.q 0x10", 4, "scan"),
     "bad-size-eol": ("   sta.", 7, "scan"),
     "bad-index": ("lda 0x10, q", 10, "scan"),
@@ -109,7 +115,7 @@ def run(tier, seed):
                 kinds.add(k)
                 failures.append({"ident": f"bounded/error-location/{c['error']}", "script": "b_C17.py", "payload": c, "observed": f})
     return {"evaluations": len(cases), "distinct_nontrivial": len({str(c) for c in cases}),
-            "rule": "7 erroneous statement kinds (undefined symbol in operand / data directive, bad size suffix incl. at end of line, bad index register, "
+            "rule": "13 erroneous statement kinds (undefined symbol in operand with and without size suffix / data directive, bad size suffix incl. at end of line, bad index register, "
                     "unterminated string in .ascii / .db) x every top-level line position (thorough) of 3 base programs with comments, blank lines, blocks, macro "
                     "definitions, multi-line comments, a form feed inside a comment x main file / included file; checks file, zero-based line, quoted text, column",
             "samples": cases[:2], "failures": failures}
